@@ -31,7 +31,13 @@ impl Term for f64 {
         TermKind::Literal
     }
     fn lexical_form(&self) -> Option<MownStr> {
-        Some(MownStr::from(format!("{}", self)))
+        if self.is_infinite() {
+            // NB: Rust displays infinite values as "inf" and "-inf",
+            // which are not in the lexical space of xsd:double
+            Some(MownStr::from(if *self > 0.0 { "INF" } else { "-INF" }))
+        } else {
+            Some(MownStr::from(format!("{}", self)))
+        }
     }
     fn datatype(&self) -> Option<IriRef<MownStr>> {
         Some(IriRef::new_unchecked(MownStr::from_ref(&XSD_DOUBLE)))
